@@ -250,9 +250,9 @@ r("xml_info::XmlElement::node|index|index<-arg1#1",
   "`value.attributes[..i]` with i produced by enumerate() over the same vector: i < len")
 
 # ---- order vector (affine index rule C14-4 checks the expressions)
-r("xml_info::DocumentOrder::insert_after|vec-index|insert<-?#1", "order = position+1 <= len (guarded by order > 0)")
-r("xml_info::DocumentOrder::insert_before|vec-index|insert<-?#1", "order-1 = position < len (guarded by order > 0)")
-r("xml_info::DocumentOrder::remove|vec-index|remove<-?#1", "order-1 = position < len (guarded by order > 0)")
+r("xml_info::DocumentOrder::insert_after|vec-index|insert<-arg1#1", "order = position+1 <= len (guarded by order > 0)")
+r("xml_info::DocumentOrder::insert_before|vec-index|insert<-arg1#1", "order-1 = position < len (guarded by order > 0)")
+r("xml_info::DocumentOrder::remove|vec-index|remove<-arg1#1", "order-1 = position < len (guarded by order > 0)")
 
 # ---- constant input
 r("xml_info::XmlDocument::empty|unwrap|unwrap<-document#1", "constant input \"<r />\" (the grammar rule R01-1 shows it is a document)")
